@@ -59,12 +59,14 @@ var (
 	Timers   []*Timer
 )
 
+//go:norace
 func Reset() {
 	clocks = map[int]*Clock{}
 	Sleepers = nil
 	Timers = nil
 }
 
+//go:norace
 func ClockOf(node int) *Clock {
 	c := clocks[node]
 	if c == nil {
@@ -75,11 +77,14 @@ func ClockOf(node int) *Clock {
 }
 
 // Advance moves node's clock forward.
+//go:norace
 func Advance(node int, d Duration) { ClockOf(node).Ns += int64(d) }
 
 // NowOf reads a node's clock without ticking it.
+//go:norace
 func NowOf(node int) int64 { c := ClockOf(node); return c.Ns + c.Reads }
 
+//go:norace
 func Now() Time {
 	if !vsched.Active {
 		return time.Now()
@@ -91,11 +96,15 @@ func Now() Time {
 
 // ToNs converts a library time value back to clock nanoseconds (without the
 // read counter's influence being removed; callers compare coarsely).
+//go:norace
 func ToNs(t Time) int64 { return int64(t.Sub(Epoch)) }
 
+//go:norace
 func Since(t Time) Duration { return Now().Sub(t) }
+//go:norace
 func Until(t Time) Duration { return t.Sub(Now()) }
 
+//go:norace
 func Sleep(d Duration) {
 	if !vsched.Active {
 		time.Sleep(d)
@@ -107,7 +116,7 @@ func Sleep(d Duration) {
 	node := vsched.CurNode()
 	s := &Sleeper{Task: vsched.Cur(), Node: node, D: d, Deadline: ClockOf(node).Ns + int64(d)}
 	Sleepers = append(Sleepers, s)
-	vsched.Block("sleep", s, func() bool { return s.Fired })
+	vsched.Block("sleep", s, sleeperFired{s}.ok)
 	// remove
 	for i, x := range Sleepers {
 		if x == s {
@@ -118,6 +127,7 @@ func Sleep(d Duration) {
 }
 
 // LiveSleepers returns sleepers whose task is still alive.
+//go:norace
 func LiveSleepers() []*Sleeper {
 	j := 0
 	for _, s := range Sleepers {
@@ -130,6 +140,7 @@ func LiveSleepers() []*Sleeper {
 	return Sleepers
 }
 
+//go:norace
 func After(d Duration) <-chan Time {
 	if !vsched.Active {
 		return time.After(d)
@@ -141,6 +152,7 @@ func After(d Duration) <-chan Time {
 }
 
 // Fire delivers a timer.
+//go:norace
 func (t *Timer) Fire() {
 	if !t.Fired {
 		t.Fired = true
@@ -148,4 +160,11 @@ func (t *Timer) Fire() {
 	}
 }
 
+//go:norace
 func Unix(sec, nsec int64) Time { return time.Unix(sec, nsec) }
+
+
+type sleeperFired struct{ s *Sleeper }
+
+//go:norace
+func (r sleeperFired) ok() bool { return r.s.Fired }
